@@ -68,3 +68,24 @@ Theorem C14_old_strand_rule_refuted_on_text :
   is_reverse_old (render (LCompJoin [(38, 41); (25, 26); (28, 33)]%nat)) = Ok false /\ loc_reverse (LCompJoin [(38, 41); (25, 26); (28, 33)]%nat) = true.
 Proof. exact is_reverse_old_refuted. Qed.
 Print Assumptions C14_old_strand_rule_refuted_on_text.
+
+(* ---- the two annotation texts at the level of bytes (GffLineModel.v / GenbankModel.v mirror pkg/gff/gff.go and
+   pkg/genbank/genbank.go and are compared with them on every run) ---- *)
+From GF Require Import GffLineModel GffLineProofs GenbankModel GenbankProofs.
+(* a well-formed GFF3 feature row - any seqid over the permitted characters, any source / type / score text without tabs, strand
+   + - . ?, phase 0-2 (or . for a non-CDS row), one or more attributes tag=v1,v2,... - is read back field by field *)
+Theorem C14_gff_row_roundtrip : forall r, wf_row r -> feature_from_line (render_row r) = Ok (feat_of r).
+Proof. exact gff_row_roundtrip. Qed.
+Print Assumptions C14_gff_row_roundtrip.
+(* a FEATURES block written from any features (any key that does not begin with a slash - 5'UTR and -10_signal included -, any
+   location text without blanks, one or more one-line qualifiers /k=v or /k="v") is read back as exactly those features with
+   exactly those qualifiers: no qualifier moves to a neighbouring feature *)
+Theorem C14_genbank_features_roundtrip : forall fs, fs <> [] -> Forall wf_feat fs -> parse_features (render_features fs) = Ok (map parsed fs).
+Proof. exact features_roundtrip. Qed.
+Print Assumptions C14_genbank_features_roundtrip.
+(* the ORIGIN block: however the sequence is cut into numbered, blank-separated chunks, every letter is kept, in order *)
+Theorem C14_genbank_origin_roundtrip : forall lines : list (list (list N * list N)),
+  Forall (Forall (fun p => forallb (fun c => negb (is_letter_ascii c)) (fst p) = true /\ forallb is_letter_ascii (snd p) = true)) lines ->
+  parse_origin (map (fun l => concat (map (fun p => fst p ++ snd p) l)) lines) = concat (map (fun l => concat (map snd l)) lines).
+Proof. exact parse_origin_lines. Qed.
+Print Assumptions C14_genbank_origin_roundtrip.
